@@ -136,7 +136,9 @@ func (l *LLC) SerializeTo(b gopacket.SerializeBuffer, opts gopacket.SerializeOpt
 	var igFlag, crFlag byte
 	var length int
 
-	if l.Control&0xFF00 != 0 {
+	// The decoder reads a two byte control field unless the first control byte
+	// ends in binary 11 (U-format).  Only such a value below 0x100 fits in one byte.
+	if l.Control&0xFF00 != 0 || l.Control&0x3 != 0x3 {
 		length = 4
 	} else {
 		length = 3
